@@ -735,6 +735,25 @@ Proof.
     apply rel_attempt_effect in Er. destruct Er as ((A & B & _) & _). split; [exact B | exact A].
 Qed.
 
+(* ---------- a stray acknowledgement is inert on the wire ---------- *)
+(* A late / duplicate PUBACK, PUBREC, PUBCOMP (SUBACK, UNSUBACK) processed by the reader while no call
+   waits for it writes nothing, changes no flag, and on the signaller is the operation [MUnreg]: so a
+   chain of attempts with any number of stray acknowledgements in the gaps between attempts is a
+   [publish_chain] with those [MUnreg]s in [bs_ops], and handle_chain_faithful applies to it — the
+   whole wire of the connection, reader included, is faithful. *)
+Theorem stray_ack_inert w k kd i :
+  bw_wire (serve_stray_ack w k kd i) = bw_wire w
+  /\ (forall k', bc_inited (bw_get (serve_stray_ack w k kd i) k') = bc_inited (bw_get w k')
+              /\ bc_open (bw_get (serve_stray_ack w k kd i) k') = bc_open (bw_get w k'))
+  /\ (bc_inited (bw_get w k) = true -> serve_stray_ack w k kd i = bh_apply_ops w k [MUnreg kd i]).
+Proof.
+  unfold serve_stray_ack. destruct (bc_inited (bw_get w k)) eqn:Ei.
+  - split; [reflexivity|]. split.
+    + intros k'. split; [apply bw_get_upd_inited | apply bw_get_upd_open]; intros; [apply bc_unreg_inited | apply bc_unreg_open].
+    + intros _. reflexivity.
+  - split; [reflexivity|]. split; [intros k'; split; reflexivity | discriminate].
+Qed.
+
 (* ---------- non-vacuity ---------- *)
 (* QoS 2 message with a caller-provided identifier 42. Client 0: PUBLISH written, connection closed
    while waiting for PUBREC. Client 1 (another QoS 2 publish, tag 100, is waiting for PUBREC under
